@@ -75,6 +75,15 @@ class RawTok(Model):
     def __ge__(self, o):
         return self._bin(">=", o)
 
+    def __and__(self, o):
+        return self._bin("&", o)
+
+    def __or__(self, o):
+        return self._bin("|", o)
+
+    def __invert__(self):
+        return RawTok(("~", self.origin), self.shape)
+
     def __len__(self):
         if not self.shape:
             raise TypeError("len() of unsized object")
@@ -91,6 +100,7 @@ class RawTok(Model):
         return "Raw(%r)" % (self.origin,)
 
 
+RAW_UNITS = [False]   # when set, Array.values yields ("raw", origin, unit): the number expressed in the Array's own unit
 INTERN = {}      # large index expressions -> short names (hash-consing keeps origin trees small)
 INTERN_REV = {}
 
@@ -204,6 +214,8 @@ class ArrTok(Model):
 
     @property
     def values(self):
+        if RAW_UNITS[0]:
+            return RawTok(("raw", self.origin, self.unit.name), self.shape)
         return RawTok(self.origin, self.shape)
 
     @values.setter
@@ -380,7 +392,15 @@ def array_factory(values=None, unit=None, name=""):
             raise Raised("ValueError", None, "unit with Quantity")
         return ArrTok(values.magnitude.origin, values.units, (3,), name)
     if isinstance(values, RawTok):
-        return ArrTok(values.origin, unit if unit is not None else "dimensionless", values.shape, name)
+        o = values.origin
+        if RAW_UNITS[0]:
+            # a number re-wrapped as an Array: quantity = number * unit
+            uname = getattr(unit, "name", unit) if unit is not None else "dimensionless"
+            if isinstance(o, tuple) and len(o) == 3 and o[0] == "raw" and o[2] == uname:
+                o = o[1]
+            elif _has_raw(o):
+                o = ("wrapraw", o, uname)
+        return ArrTok(o, unit if unit is not None else "dimensionless", values.shape, name)
     if isinstance(values, NdTok):
         return ArrTok(values.origin, unit if unit is not None else "dimensionless", values.shape, name)
     if isinstance(values, (int, float)):
@@ -390,6 +410,12 @@ def array_factory(values=None, unit=None, name=""):
     if isinstance(values, Model) and hasattr(values, "origin"):
         return ArrTok(values.origin, unit if unit is not None else "dimensionless", getattr(values, "shape", (3,)) if isinstance(getattr(values, "shape", None), tuple) else (3,), name)
     raise Unsupported("Array(%r)" % (values,))
+
+
+def _has_raw(o):
+    if isinstance(o, tuple):
+        return (len(o) == 3 and o[0] == "raw") or any(_has_raw(x) for x in o)
+    return False
 
 
 def units_factory(arg):
